@@ -124,7 +124,7 @@ def acc_models(ctx):
     """state graphs of the accumulator model; the unrestricted ones are also the source of replay vectors"""
     lines = set()
     for n in ctx.pick([1, 2, 3, 4], [1, 2, 3, 4, 5, 6]):
-        for target in (["pair", "bytes"] if n >= 3 else ["pair"]):
+        for target in (["pair", "bytes"] if n >= 3 else ["pair", "unit"] if n == 2 else ["pair"]):
             mc = 4 if n <= 4 else 3
             r = acc_mc(ctx, n, target, False, emit=True, maxchunk=mc)
             lines.update(r.pop("lines"))
